@@ -602,6 +602,9 @@ func (w *world) jitter() {
 	}
 }
 
+// variantFields: the single field in which a "variant of the last honest message" differs from it.
+var variantFields = []string{"body", "body-suffix", "from", "sig", "sig-key", "hash-type", "context"}
+
 // forgedKinds are the submissions built by hand (sigoracle.Forged) on the server side.
 func forgedKinds() []string {
 	var l []string
@@ -720,6 +723,42 @@ func (w *world) submit(s *sessStream, kind string) {
 		case "send-nil-msg": // a SendMsg request without any message
 			msg = nil
 		default:
+			if f := strings.Split(kind, ":"); f[0] == "send-variant" && len(f) >= 3 {
+				// wave 5: "after an honest message, a variant of it": the last AUTHENTIC message of this
+				// very stream with exactly ONE authenticated field replaced and everything else (in
+				// particular the signature bytes / the sender / the body) byte-identical, under the SAME
+				// message seqno ("same": what a retransmission looks like) or the next one ("fresh")
+				if s.lastSubAuth == nil {
+					panic("harness: " + kind + " needs an authentic message submitted on the stream before")
+				}
+				m := s.lastSubAuth.CloneVT()
+				if f[2] == "same" {
+					s.nextQ--
+					q = s.lastSubAuth.GetSeqno()
+				}
+				m.Seqno = q
+				switch f[1] {
+				case "body": // other body, old sender + old signature object
+					m.SignedMsg.Data = append([]byte{^m.SignedMsg.Data[0]}, data...)
+				case "body-suffix": // the old body extended (a prefix / length-only comparison would accept it)
+					m.SignedMsg.Data = append(m.SignedMsg.Data, data...)
+				case "from": // another sender named, old body + old signature object
+					m.SignedMsg.FromPeerId = foreign.IDStr
+				case "sig": // old body + old sender, the signature bytes of another key holder over that body
+					m.SignedMsg.Signature.SigData = sigoracle.Assemble(mine.IDStr, m.SignedMsg.Data, foreign, sigoracle.Context, nil, q).SignedMsg.Signature.SigData
+				case "sig-key": // ... with that key holder's public key attached
+					x := sigoracle.Assemble(mine.IDStr, m.SignedMsg.Data, foreign, sigoracle.Context, foreign, q)
+					m.SignedMsg.Signature = x.SignedMsg.Signature
+				case "hash-type": // the signed hash type (bound into what the signature covers) changed, old signature bytes
+					m.SignedMsg.Signature.HashType = hash.HashType_HashType_SHA256
+				case "context": // old body + old sender, re-signed by the stream's own key under another signing context
+					m.SignedMsg.Signature.SigData = sigoracle.Assemble(mine.IDStr, m.SignedMsg.Data, mine, sigoracle.OtherContext, nil, q).SignedMsg.Signature.SigData
+				default:
+					panic("unknown variant field " + f[1])
+				}
+				msg = m
+				break
+			}
 			m, ok := sigoracle.Forged(strings.TrimPrefix(kind, "send-"), mine, foreign, data, q)
 			if !ok {
 				panic("unknown submission kind " + kind)
@@ -730,6 +769,10 @@ func (w *world) submit(s *sessStream, kind string) {
 		switch kind {
 		case "send-stale", "send-resigned-stale":
 			if ep > 0 {
+				ep--
+			}
+		default:
+			if strings.HasPrefix(kind, "send-variant:") && strings.HasSuffix(kind, ":stale") && ep > 0 {
 				ep--
 			}
 		case "send-future":
@@ -1144,6 +1187,37 @@ func (e *engine) scenario(kind string, n int) {
 			}
 			act(fmt.Sprintf("round %d on a fresh 1->2 call: authentic send; %s", i, strings.Join(steps, "; ")))
 		}
+	case "variant-after-honest":
+		// C20 sentinel (wave 5): on ONE stream, an honest message (verified, forwarded, acknowledged)
+		// is followed by a variant of it in which exactly one authenticated field differs while all
+		// the others - signature bytes, sender, body - are byte-identical, under the same message
+		// seqno (a "retransmission") and under the next one; in the same session epoch (n=0), after
+		// the partner re-opened the session (n=1: the stream survives, the epoch moved) and stamped
+		// with the previous epoch after the re-open (n=2). Whatever the relay remembers about the
+		// honest message, the variant does not verify: it must fail the stream and reach nobody.
+		b := w.newSession(2, 1)
+		for _, f := range variantFields {
+			for _, sq := range []string{"same", "fresh"} {
+				a := w.newSession(1, 2)
+				q()
+				w.submit(a, "send")
+				q()
+				w.submit(b, "ack")
+				q()
+				k := "send-variant:" + f + ":" + sq
+				if n >= 1 {
+					b = w.newSession(2, 1) // the partner re-opens: new epoch, a's stream stays
+					q()
+				}
+				if n == 2 {
+					k += ":stale"
+				}
+				w.submit(a, k)
+				q()
+				w.submit(b, "ack")
+				act(fmt.Sprintf("fresh 1->2 call: authentic send; ack; %s%s", map[bool]string{true: "partner re-opens; ", false: ""}[n >= 1], k))
+			}
+		}
 	case "stale-ack":
 		// C21 sentinel (relay side of "acks and clears only affect the message they name"), and the
 		// expectation for a pending withdrawal: A sends m1 (forwarded to B), withdraws it, sends m2
@@ -1412,12 +1486,19 @@ func (e *engine) scenario(kind string, n int) {
 			default:
 				s := live[e.rng.Intn(len(live))]
 				kinds := []string{"send", "send", "send", "send", "send", "ack", "ack", "ack", "clear", "send-stale", "send-future", "send-forged-key", "send-tampered", "init-again", "close-rx", "cancel", "cancel", "send-keyed",
-					"ack-prev", "clear", "send-resigned"}
+					"ack-prev", "clear", "send-resigned", "send-variant"}
 				if e.rng.Intn(25) == 0 {
 					k0 := []string{"fail-send", "send-resigned-stale"}
 					kinds = k0
 				}
 				k := kinds[e.rng.Intn(len(kinds))]
+				if k == "send-variant" && s.lastSubAuth == nil {
+					k = "send-resigned"
+				}
+				if k == "send-variant" {
+					// a variant of the stream's last honest message, same or next message seqno
+					k = "send-variant:" + variantFields[e.rng.Intn(len(variantFields))] + ":" + []string{"same", "fresh"}[e.rng.Intn(2)]
+				}
 				if e.rng.Intn(12) == 0 {
 					fk := append(forgedKinds(), "send-nil-msg", "empty-request")
 					k = fk[e.rng.Intn(len(fk))]
@@ -2095,7 +2176,11 @@ func (e *engine) run() {
 	e.rep.Require("trace.resigned-copy.quiescent", "trace.stale-ack.quiescent", "trace.stored-then-stale.quiescent", "trace.send-error-exit.quiescent", "trace.send-error-exit.drained")
 	e.rep.Extra["events"] = 0
 	e.rep.Extra["withdrawals_held_at_quiescence"] = 0
+	e.rep.Require("trace.variant-after-honest.quiescent")
 	e.scenario("resigned-copy", 1)
+	for i := 0; i < 3; i++ {
+		e.scenario("variant-after-honest", i)
+	}
 	e.scenario("stale-ack", 1)
 	for i := 0; i < 2; i++ {
 		e.scenario("stored-then-stale", i)
